@@ -387,19 +387,15 @@ impl Core {
         query: &IterativeQuery,
     ) -> Option<SocketAddrV4> {
         if let Some(new_address) = query.best_address() {
-            self.public_address = Some(new_address);
-
-            if self.public_address.is_none()
-                || new_address
-                    != self
-                        .public_address
-                        .expect("self.public_address is not None")
-            {
+            // Compare with the previously known address before overwriting it, otherwise
+            // the two are always equal and the new address is never confirmed.
+            if self.public_address != Some(new_address) {
                 trace!(
                     ?new_address,
                     "Query responses suggest a different public_address, trying to confirm.."
                 );
 
+                self.public_address = Some(new_address);
                 self.firewalled = true;
                 return Some(new_address);
             }
